@@ -55,22 +55,45 @@ def main():
     na = in_fork(solo_len)
     out = {"na": na, "runs": {}}
     ks = job["ks"] if job["ks"] else list(range(0, na + 1, job.get("step", 1)))
-    for k in ks:
-        if k > na:
-            continue
+    def start(fn):
+        r, w = os.pipe()
+        pid = os.fork()
+        if pid == 0:
+            os.close(r)
+            try:
+                out = fn()
+            except BaseException as e:      # noqa
+                out = ("crash", repr(e))
+            with os.fdopen(w, "wb") as f:
+                pickle.dump(out, f)
+            os._exit(0)
+        os.close(w)
+        return pid, r
 
-        def one(k=k):
-            sch = Sched(FILES)
+    def finish(pid, r):
+        with os.fdopen(r, "rb") as f:
+            data = f.read()
+        os.waitpid(pid, 0)
+        return pickle.loads(data) if data else ("crash", "no output")
 
-            def pick(steps, alive):
-                if 0 in alive and steps.get(0, 0) < k:
-                    return 0
-                if 1 in alive:
-                    return 1
+    def one(k):
+        sch = Sched(FILES)
+
+        def pick(steps, alive):
+            if 0 in alive and steps.get(0, 0) < k:
                 return 0
-            results, _ = sch.run({0: body(job["A"]), 1: body(job["B"])}, pick)
-            return results
-        out["runs"][k] = in_fork(one)
+            if 1 in alive:
+                return 1
+            return 0
+        results, _ = sch.run({0: body(job["A"]), 1: body(job["B"])}, pick)
+        return results
+
+    ks = [k for k in ks if k <= na]
+    width = 12                                   # schedules in flight (each in its own freshly forked, cold process)
+    for i in range(0, len(ks), width):
+        running = [(k, start(lambda k=k: one(k))) for k in ks[i:i + width]]
+        for k, (pid, r) in running:
+            out["runs"][k] = finish(pid, r)
     sys.stdout.write(base64.b64encode(pickle.dumps(out)).decode())
 
 
